@@ -913,8 +913,10 @@ pub fn spin_checks(report: &mut Report, property: &str) {
 }
 
 pub fn main(opts: &Opts) {
+    // C14 reads the same runs for what it states: every call comes back, and reports the peer's error
+    let c14 = opts.property == "C14";
     let mut report = Report::new(
-        "C13",
+        if c14 { "C14" } else { "C13" },
         "a client with 1..2 sessions and 0..3 links (senders and receivers) against a scripted peer; 1..7 events from: local end / \
          end-with-error / drop of a session, local detach / close / close-with-error / drop / use of a link, the peer ending a session or \
          detaching / closing a link with or without error, the peer withholding and releasing its answers; afterwards every surviving \
@@ -951,7 +953,9 @@ pub fn main(opts: &Opts) {
         }
         std::process::exit(2);
     }
-    spin_checks(&mut report, "C13");
+    if !c14 {
+        spin_checks(&mut report, "C13");
+    }
     let mut rng = Rng::new(opts.seed ^ 0xc13);
     let mut corpus: Vec<Case> = vec![];
     if let Ok(rd) = std::fs::read_dir("/verif/corpus/C13") {
@@ -993,7 +997,13 @@ pub fn main(opts: &Opts) {
         if k % (n / 3).max(1) == 0 {
             report.sample(case.to_json());
         }
-        if let Some((key, desc)) = check(&case, &obs) {
+        if c14 {
+            if let Some((_, what, None, _)) = obs.calls.iter().find(|c| c.2.is_none()) {
+                report.finding(Finding { kind: "violation", key: "call-never-returned".into(), description: format!("{} did not come back by the end of the scenario (the peer had answered everything it was asked)", what), replay: json!({"property": "C14", "module": "life", "case": case.to_json()}) });
+            }
+        }
+        let verdict = check(&case, &obs).filter(|(k, _)| !c14 || k == "peer-detach-error-not-reported" || k == "peer-end-error-not-reported");
+        if let Some((key, desc)) = verdict {
             let key0 = key.clone();
             let evs = shrink_list(&case.events, &mut |e: &[Ev]| {
                 let c = Case { sessions: case.sessions, links: case.links.clone(), events: e.to_vec(), allow_mismatch: case.allow_mismatch, window: case.window };
@@ -1003,10 +1013,15 @@ pub fn main(opts: &Opts) {
             let best = Case { sessions: case.sessions, links: case.links.clone(), events: evs, allow_mismatch: case.allow_mismatch, window: case.window };
             let o2 = run(&best);
             let desc2 = check(&best, &o2).map(|x| x.1).unwrap_or(desc);
-            report.finding(Finding { kind: "violation", key, description: desc2, replay: json!({"property": "C13", "module": "life", "case": best.to_json()}) });
+            report.finding(Finding { kind: "violation", key, description: desc2, replay: json!({"property": if c14 { "C14" } else { "C13" }, "module": "life", "case": best.to_json()}) });
         }
     }
-    correspondence(&mut rng, opts, &mut report);
+    if c14 {
+        // the lifecycle model is C13's; the runs above were the model-free part
+        report.model_used = true;
+    } else {
+        correspondence(&mut rng, opts, &mut report);
+    }
     report.write(&opts.report);
     println!("life: {} cases, {} non-trivial, {} findings", report.evaluations, report.nontrivial.len(), report.findings.len());
 }
